@@ -44,7 +44,7 @@ class C02(Check):
             parties.append(actors.Reader(rs["read%d" % k], cfg, b))
         parties.append(actors.Operator(rs["oper"], {"dirty_p": 0.0}))
         weights = {"importer": r.choice([1.0, 2.0]), "editor": r.choice([1.0, 2.0, 3.0]), "reader": 0.7, "operator": 0.12}
-        nsteps = r.choice([3, 5, 8, 15, 30, 60])
+        nsteps = r.choice([3, 5, 8, 15, 30, 60] + ([120, 240] if tier == "thorough" else []))
         steps += actors.schedule(rs["sched"], parties, weights, nsteps)
         return {"backend": backend, "steps": steps, "lat": lat}
 
